@@ -241,11 +241,11 @@ def le_int(bs, signed=False):
 # --------------------------------------------------------------------------- native replay
 
 
-def replay_build(mirror, release=False, extra_cfg=""):
-    """Build /verif/replay against the mirror (real decNumber, regex, chrono; no stubs)."""
-    rdir = os.path.join(mirror.root, "replay")
+def replay_build(mirror, release=False, extra_cfg="", crate="replay", binary="dmntk-replay"):
+    """Build /verif/replay (or another replay crate of /verif) against the mirror (real decNumber, regex, chrono; no stubs)."""
+    rdir = os.path.join(mirror.root, crate)
     if not os.path.isdir(rdir):
-        shutil.copytree(os.path.join(VERIF, "replay"), rdir)
+        shutil.copytree(os.path.join(VERIF, crate), rdir)
         with open(os.path.join(rdir, "Cargo.toml")) as f:
             t = f.read()
         t = t.replace("@MIRROR@", mirror.src)
@@ -253,7 +253,7 @@ def replay_build(mirror, release=False, extra_cfg=""):
             f.write(t)
         shutil.copy(os.path.join(mirror.src, "Cargo.lock"), os.path.join(rdir, "Cargo.lock"))
     # one target directory per cfg set: a change of RUSTFLAGS would otherwise rebuild every dependency each time two checks alternate
-    tag = "native-target" + ("-" + re.sub(r"[^a-z0-9_]+", "_", extra_cfg.replace("--cfg", "").strip()) if extra_cfg.strip() else "")
+    tag = ("native-target" if crate == "replay" else "native-" + crate) + ("-" + re.sub(r"[^a-z0-9_]+", "_", extra_cfg.replace("--cfg", "").strip()) if extra_cfg.strip() else "")
     tdir = os.path.join(CACHE, tag)
     cmd = ["cargo", "build", "--offline", "--target-dir", tdir]
     if release:
@@ -263,8 +263,8 @@ def replay_build(mirror, release=False, extra_cfg=""):
         rc, out, secs = sh(cmd, cwd=rdir, env=env, timeout=1800)
         if rc != 0:
             raise RuntimeError("replay build failed:\n" + out[-4000:])
-        src = os.path.join(tdir, "release" if release else "debug", "dmntk-replay")
-        dst = os.path.join(mirror.root, "dmntk-replay" + ("-release" if release else ""))
+        src = os.path.join(tdir, "release" if release else "debug", binary)
+        dst = os.path.join(mirror.root, binary + ("-release" if release else ""))
         shutil.copy(src, dst)
     return dst
 
